@@ -696,8 +696,12 @@ func (c *Client) probe(kind string, script []CandOp) {
 
 // playCandidate runs a scripted candidate; the session stays on polling.
 func (c *Client) playCandidate(s streamConn, script []CandOp) {
-	gotPong, sentProbe := false, false
+	gotPong, sentProbe, dirty := false, false, false
 	for _, op := range script {
+		switch op.Op {
+		case "ping", "pong", "msg", "noop", "closepkt", "garbage":
+			dirty = true // anything but the probe makes the server drop the candidate
+		}
 		if op.WaitMs > 0 {
 			simrt.Sleep(time.Duration(op.WaitMs) * time.Millisecond)
 		}
@@ -732,7 +736,10 @@ func (c *Client) playCandidate(s streamConn, script []CandOp) {
 			// The server answers a probe before it reads the next packet of the
 			// stream, so 'probe ... upgrade' without an explicit wait is the same
 			// thing: the client collects the pong first, as a real one would.
-			for k := 0; sentProbe && !gotPong && k < 8; k++ {
+			if dirty {
+				gotPong = false
+			}
+			for k := 0; sentProbe && !dirty && !gotPong && k < 8; k++ {
 				p, rerr := s.recvPacket()
 				if rerr != nil {
 					c.rec("c-cand-end", rerr.Error(), 0)
